@@ -10,6 +10,9 @@ gen_matrix(rng, C, **features) builds the matrix through the public API.  Featur
   mux_choices (list drawn from when mux='mixed'; default none,none,simple,extended)
   fd_j1939_exclusive (no frame is CAN FD and J1939 at once)  initial_on_grid (every signal's initial value inside its limits and on the raw grid)
   len_choices (list of frame lengths drawn from, overrides max_len/fd for the length)
+  mux_value_tables (probability of a value table on the multiplexer signal)  mux_declared_01 (probability that such a
+    multiplexer wider than one bit declares min 0 / max 1 and uses selector values 0/1 only)
+  bare_signals (probability of a signal with all defaults - unsigned, factor 1, offset 0, natural limits, no unit - and a value table)
   static_in_mux (default True; False: a multiplexed frame holds only the multiplexer and multiplexed signals)
   float_signed_default (probability that a float signal keeps Signal's default is_signed=True; default: floats are unsigned)
 normal_form(db, ...) returns plain dicts/lists/strings only (JSON-able), decimals as normalised strings.
@@ -172,6 +175,8 @@ def gen_matrix(rng, C, **ft):
         static_lay = layouts.gen_layout(rng, L, max_signals=rng.randrange(1, 5), le_prob=le_prob, free=free,
                                         max_width=g("max_width", 64))
         if mux_sig is not None and not g("static_in_mux", True):
+            for d in static_lay:
+                free |= set(layouts.positions(d["le"], d["start"], d["size"]))      # give the bits back to the groups
             static_lay = []     # formats whose multiplexed frames consist of the multiplexer and groups only (SYM)
         groups = []
         if mux_sig is not None:
@@ -179,10 +184,31 @@ def gen_matrix(rng, C, **ft):
             nvals = rng.sample(range(0, 1 << mux_sig.size), min(rng.randrange(1, 4), 1 << mux_sig.size))
             if 0 not in nvals and rng.random() < 0.5:
                 nvals[0] = 0
+            if g("mux_value_tables", None) is not None and rng.random() < g("mux_value_tables", 0):
+                # value table on the multiplexer itself; with mux_declared_01 a wider multiplexer may declare the range 0..1
+                declared01 = mux_sig.size > 1 and rng.random() < g("mux_declared_01", 0)
+                if declared01:
+                    nvals = rng.sample([0, 1], rng.randrange(1, 3))
+                    mux_sig.min, mux_sig.max = D(0), D(1)
+                top = 2 if declared01 else (1 << mux_sig.size)
+                for k in sorted(set(nvals) | {rng.randrange(0, top)}):
+                    if k < top:
+                        mux_sig.add_values(k, "Page%d" % k if rng.random() < 0.5 else rng.choice(LABELS))
             for v in nvals:
                 gl = layouts.gen_layout(rng, L, max_signals=rng.randrange(1, 3), le_prob=le_prob, free=set(free), max_width=16)
                 groups.append((v, gl))
         def mk_signal(d, prefix="S", multiplex=None):
+            if g("bare_signals", None) is not None and rng.random() < g("bare_signals", 0):
+                # everything at its default (unsigned, factor 1, offset 0, natural limits, no unit) except a value table:
+                # writers then omit their optional elements around the table
+                s = C.Signal(pick_name(rng, used_sig, g("long_names", False), prefix=prefix), start_bit=d["start"], size=d["size"],
+                             is_little_endian=d["le"], is_signed=False, multiplex=multiplex)
+                hi = min((1 << d["size"]) - 1, 20)
+                for k in sorted({rng.randrange(0, hi + 1) for _ in range(rng.randrange(1, 4))}):
+                    s.add_values(k, rng.choice(LABELS))
+                if g("receivers", True) and rng.random() < 0.5:
+                    s.add_receiver(rng.choice(ecus))
+                return s
             isf = g("floats", False) and d["size"] in (32, 64) and rng.random() < 0.5
             signed = (g("signed", True) and rng.random() < 0.5) if not isf else False
             if isf and g("float_signed_default", None) is not None and rng.random() < g("float_signed_default", 0):
